@@ -114,6 +114,18 @@ pub fn poa_fields<S: Src>(s: &mut S) {
         h.consensus_mut().time = Tai64(time);
         h.consensus_mut().generated.application_hash = app_hash_in_header;
         h.set_da_height(DaBlockHeight(da));
+        // native replay: the two hash checks are real there, so give the block the
+        // hashes of its own content; acceptance then depends on the field rules only
+        #[cfg(not(kani))]
+        {
+            match h {
+                BlockHeader::V1(v1) => {
+                    v1.application_mut().generated.transactions_root = fuel_core_types::blockchain::header::generate_txns_root(&[]);
+                    let real = v1.application().hash();
+                    h.consensus_mut().generated.application_hash = real;
+                }
+            }
+        }
     }
     let verifier = Verifier::new(
         Config::new(ConsensusConfig::PoA { signing_key: Address::zeroed() }, 0u32.into(), DaBlockHeight(0)),
